@@ -1,6 +1,6 @@
 (* C07 - Exit status 0 means everything was applied; every failure is reported.  Statements only. *)
 From RJ Require Import Base.Prelude Base.OrderedPlan Model.Settings Model.Core Model.Fs Model.Paths Model.Sync Model.SyncTop
-  Proofs.ExecProofs Proofs.DryProofs Proofs.CrashProofs Proofs.CrashMain Proofs.ReportProofs Proofs.TouchedProofs Proofs.InstanceProofs Model.Async Proofs.AsyncProofs.
+  Proofs.ExecProofs Proofs.DryProofs Proofs.CrashProofs Proofs.CrashMain Proofs.ReportProofs Proofs.TouchedProofs Proofs.InstanceProofs Model.Async Proofs.AsyncProofs Proofs.MirrorProofs Proofs.KillEvents.
 
 (* sync() returns Ok (a real run, the root not skipped) only if EVERY step of the confirmed plan was carried
    out: every planned command sent, executed and answered without error, every source file fetched; the
@@ -56,6 +56,17 @@ Theorem C07_only_planned_changes : forall now_z normalize chunker,
    T (r_dest (sync_one now_z normalize chunker cfg S D ans bits ls ld ft))).
 Proof. exact only_planned_changes. Qed.
 
+(* ... and for the executable sync with no premise at all about links (C02's general confinement theorem): *)
+Theorem C07_only_planned_changes_unconditional : forall cfg S D a ans bits ex ft,
+  unique_keys S -> wf_fs S -> unique_keys D -> wf_fs D ->
+  let ls := list_fs now_far (excl_incl ex) normalize_unix S in
+  let ld := list_fs now_far (excl_incl ex) normalize_unix D in
+  let steps := snd (sync_plan now_far normalize_unix chunk_real cfg S (world D a []) ans bits ls ld) in
+  let T := Touched (cf_fl cfg) S D (cmd_of_plan steps) (file_of_plan steps) in
+  (forall s, In s (sync_kill_states now_far normalize_unix chunk_real cfg S (world D a []) ans bits ls ld ft) -> T s) /\
+  T (r_dest (run_top cfg S D a ans bits ex ft)).
+Proof. exact kill_states_touched_unconditional. Qed.
+
 (* The asynchrony itself, as a two-process model (Model/Async.v): the boss streams commands and looks at
    replies now and then, the doer executes and answers in order, every interleaving is a path.  On EVERY
    path: Ok only after the doer has executed the whole plan without a single error reply; an error answered
@@ -110,6 +121,7 @@ Print Assumptions C07_no_error_dropped.
 Print Assumptions C07_failure_is_reported.
 Print Assumptions C07_summary_is_census.
 Print Assumptions C07_only_planned_changes.
+Print Assumptions C07_only_planned_changes_unconditional.
 Print Assumptions C07_async_ok_sound.
 Print Assumptions C07_async_no_error_lost.
 Print Assumptions C07_async_prefix.
